@@ -34,8 +34,10 @@ try:
     out = f"/verif/seeded/{sid}"
     os.makedirs(out, exist_ok=True)
     for f in ("patch.diff", "demo.py"):
-        shutil.copy(f"{src}/{f}", f"{out}/{f}")
+        if os.path.realpath(f"{src}/{f}") != os.path.realpath(f"{out}/{f}"):
+            shutil.copy(f"{src}/{f}", f"{out}/{f}")
     meta = json.load(open(f"{src}/meta.json"))
+    meta.pop("confirmation", None)
     meta["confirmation"] = res
     json.dump(meta, open(f"{out}/meta.json", "w"), indent=1)
     ok = "65 passed" in res["tests"] and d1.returncode != 0 and d0.returncode == 0
